@@ -157,3 +157,11 @@ Lemma ex_bmp_instance :
   /\ call FUEL ex_ctl "BMP" "read_adc" [[("cabinet", VInt 0); ("frame", VInt 0); ("board", VInt 0)]] [VInt 1] []
   = ([], Some AssertErr).
 Proof. repeat split; vm_compute; reflexivity. Qed.
+
+(* a method re-entering itself: count_cores_in_state with a sequence of three states (token 2) and an
+   explicit application id 9 while the context says 66: three count commands, every one carrying 9 *)
+Lemma ex_iterable_instance :
+  call FUEL ex_ctl "MC" "count_cores_in_state" [[("app_id", VInt 66)]] [VTok 2; VInt 9] []
+  = (let w := MkWire 3 0 (VInt 255) (VInt 255) (VInt 0) (VInt SCP_signal) [(1%nat, 20, 15, 4 + AppDiag_count)]
+                     [(FByte, 1%nat, 0, VInt 9)] in [w; w; w], None).
+Proof. vm_compute. reflexivity. Qed.
